@@ -23,7 +23,7 @@ def run(tier):
     w = chk.work
     count = 120 if thorough else 24
     files = vlib.parallel(lambda i: vlib.run_to_file([exe, "rec", str(vlib.SEED * 16 + i + 1), str(count)], os.path.join(w, "fr%02d.ndjson" % i)), range(16))
-    chk.traces("FrustumTrace", files, what="perspective and orthographic frusta: symmetric, asymmetric, off-axis windows, near/far ratios up to 2^22, dyadic and tiny (1/64) windows; points in, around and 3x beyond the frustum; normalized depths 0..1 with two integer z ranges; cameras: identity, translated, rigid, uniformly and non-uniformly scaled, rolled 90 degrees, sheared, quarter turns; witnesses inside and outside with boxes and spheres centred on them or touching them with a corner / surface point", episodes=1, timeout=7200)
+    chk.traces("FrustumTrace", files, what="perspective and orthographic frusta: symmetric, asymmetric, off-axis windows, near/far ratios up to 2^22, dyadic and tiny (1/64) windows; points in, around, 3x beyond the frustum and behind the eye plane; normalized depths 0..1 with two integer z ranges; cameras: identity, translated, rigid, uniformly and non-uniformly scaled, rolled 90 degrees, sheared, quarter turns; witnesses inside and outside with boxes and spheres centred on them or touching them with a corner / surface point", episodes=1, timeout=7200)
     progs = gen_programs(chk, 120 if thorough else 30, vlib.SEED + 16)
     progs = progs[::max(1, len(progs) // (1000 if thorough else 160))]
     pp = os.path.join(w, "programs.txt")
